@@ -104,6 +104,7 @@ type Engine struct {
 	Stats Stats
 
 	top       *frame
+	captureResult *V
 	InitWarnings []string
 	sched     *scheduler
 	chanQs    map[*Chan]*chanState
@@ -777,7 +778,7 @@ func (e *Engine) prepareCall(fr *frame, call *ssa.CallCommon) (fn V, args []V) {
 	} else {
 		recv := v.iface()
 		if recv == nil {
-			e.targetPanicStr("invalid memory address or nil pointer dereference (method call on nil interface)")
+			e.targetPanicStr("invalid memory address or nil pointer dereference")
 		}
 		if st, ok := recv.V.P.(*EnvStub); ok && recv.V.K == KOpaque {
 			fn = V{K: KFunc, P: st.method(call.Method)}
